@@ -43,12 +43,18 @@ def run(rep, pool, driver, tier):
                     if form == 'path':
                         faults.append({'kind': 'bad_line', 'pos': pos, 'shape': r.choice(['one_col', 'four_cols'])})
                         faults.append({'kind': 'truncated_gz', 'fraction': r.choice([0.4, 0.8])})
+                    if form == 'generator':
+                        # failures while the generator is still being consumed / spooled (seeded change C17_a)
+                        faults.append({'kind': 'gen_raises', 'pos': r.choice([0, 1, n - 1])})
+                        faults.append({'kind': 'gen_bad_event', 'pos': r.choice([0, n // 2])})
                     which = 'eta' if learner.startswith('wh') or learner == 'dict_wh' else r.choice(['alpha', 'beta', 'lambda'])
                     faults.append({'kind': 'bad_param', 'which': which, 'value': r.choice(['str', 'none'])})
                     if learner in run_C05.PATH_CONV:
                         faults.append({'kind': 'storage', 'budget': r.choice([0, 11, 12, 20, 31, 40, 47, 60])})
                     if quick:
-                        faults = [None] + r.sample(faults[1:], min(2, len(faults) - 1))
+                        must = [f for f in faults[1:] if f['kind'].startswith('gen_')]
+                        rest = [f for f in faults[1:] if not f['kind'].startswith('gen_')]
+                        faults = [None] + must + r.sample(rest, min(2, len(rest)))
                     for f in faults:
                         es2 = es
                         if f and f['kind'] == 'dup_cue':
